@@ -70,3 +70,33 @@ Definition fetch_symbolize (mode : string) (e : env) (absurl : string -> bool) (
       let p3 := with_maps_locs p2 (map (unsource absurl) (p_mapping p2)) (p_location p2) in
       if check_valid p3 then FOut p3 calls else FErr calls
   end.
+
+(* ------------------------------------------------------------------ any symbolizer plug-in
+   driver.Options.Sym is a plug-in: fetchProfiles must cope with whatever it does to the profile.
+   A plug-in is an arbitrary function of (mode, mapping sources, profile) giving: the profile as it
+   left it, whether it returned an error, whether the pointers it left are consistent with the
+   tables (what ids cannot express: a Function object that is not the one registered under its id),
+   the plug-in calls it made; None = it panicked. *)
+Definition plugin_t := string -> sources_t -> profile -> option (profile * bool * bool * list call).
+
+Definition fetch_generic (plug : plugin_t) (mode : string) (absurl : string -> bool) (src : string) (p : profile) : foutcome :=
+  let p0 := add_fake p in
+  let cm := if str_empty src then ([], p_mapping p0) else collect_sources src (p_mapping p0) in
+  let p1 := with_maps_locs p0 (snd cm) (p_location p0) in
+  match plug mode (fst cm) p1 with
+  | None => FPanic
+  | Some (p2, err, ptr_ok, calls) =>
+      if err then FErr calls
+      else
+        let p3 := with_maps_locs p2 (map (unsource absurl) (p_mapping p2)) (p_location p2) in
+        (* THE guard: validity is re-checked AFTER symbolization *)
+        if check_valid p3 && ptr_ok then FOut p3 calls else FErr calls
+  end.
+
+(* the built-in Symbolizer as a plug-in *)
+Definition builtin_plugin (e : env) (script : list answer) : plugin_t :=
+  fun mode srcs p1 =>
+    match symbolize mode (with_srcs e srcs) script p1 with
+    | OPanic => None
+    | Out p2 err calls => Some (p2, err, true, calls)
+    end.
